@@ -52,7 +52,7 @@ EXPECTED_PROBES = ["random_bytes", "akai", "roland", "cdda", "fault_sat_word", "
                    "fault_keygroup", "fault_cue_line", "fault_uniform_rot", "fault_cut", "fault_eio", "rot_read", "ended_with_error", "ended_ok", "cli_crosscheck"]
 SHRINK = {"max_attempts": 80, "max_seconds": 150.0, "simple_values": {"policy": ["contiguous"]}}
 CLI_EVERY = 25
-CPU_LIMIT_S = 120
+CPU_LIMIT_S = 45
 
 
 # --------------------------------------------------------------------------
@@ -123,6 +123,12 @@ def _targets(sc: dict, img: bytes, lay) -> List[tuple]:
                     elif f.kind == "program":
                         h = f.sectors_abs[0]
                         out += [("keygroup", h + 1, 2), ("keygroup", h + 42, 1), ("keygroup", h + 150 + 1, 2), ("keygroup", h + 150 + 31, 1)]
+                        # keygroup links that point back (to the first keygroup, to themselves) or nowhere
+                        for kg_off in (150, 300, 450):
+                            for v in (150, kg_off, 1, 72, 0xFFFF):
+                                out.append(("keygroup", h + kg_off + 1, 2, v))
+                        out += [("keygroup", h + 1, 2, v) for v in (0, 1, 72, 149, 151, 0x7FFF)]
+                        out += [("keygroup", h + 42, 1, v) for v in (0, 255, 200)]
             for s in sorted(used) + [0, 1, 2, 3]:
                 out.append(("sat_word", p.sat_off + 2 * s, 2))
             # explicit cycles / self links / merges inside and between chains, and among free sectors
@@ -190,7 +196,7 @@ def _fault_values(rng: random.Random, kind: str, width: int, img: bytes, off: in
 def _cue_faults(rng: random.Random, text: str) -> str:
     lines = text.split("\n")
     for _ in range(rng.randint(1, 3)):
-        k = weighted(rng, [("drop", 3), ("dup", 2), ("huge", 3), ("nofile", 1), ("garbage", 2), ("mode", 2), ("binary", 1), ("many", 1), ("blank", 4)])
+        k = weighted(rng, [("drop", 3), ("dup", 2), ("huge", 3), ("nofile", 1), ("garbage", 2), ("mode", 2), ("binary", 1), ("many", 1), ("blank", 4), ("longfile", 2)])
         i = rng.randrange(len(lines)) if lines else 0
         if k == "drop" and lines:
             del lines[i]
@@ -216,6 +222,10 @@ def _cue_faults(rng: random.Random, text: str) -> str:
                 lines.insert(i, blank)
             else:
                 lines = [x for l in lines for x in (l, blank)]
+        elif k == "longfile":
+            nm = "".join(rng.choice("abcdefghijklmnopqrstuvwxyz0123456789_-") for _ in range(rng.randint(24, 31)))
+            tail = rng.choice(["WAVE", "BINARX", "MP3", "", "BINAR"])
+            lines = [('FILE "%s.bin" %s' % (nm, tail)) if l.strip().upper().startswith("FILE") else l for l in lines]
         elif k == "binary":
             lines.insert(i, "\x00\x01\x02")
         elif k == "many":
@@ -261,6 +271,17 @@ def gen(rng: random.Random, tier: str, index: int) -> dict:
         return sc
     img, lay = (A.build(model) if fmt == "akai" else R.build(model))
     tg = _targets(sc, img, lay)
+    if fmt == "akai" and rng.random() < 0.5:
+        # a program whose keygroup chain links back on itself (the number of keygroups bounds the walk)
+        progs = [(pl, vl, fl) for pl, vl, fl in lay.files() if fl.kind == "program"]
+        if progs:
+            pl, vl, fl = rng.choice(progs)
+            kgs = model["partitions"][pl.idx]["volumes"][vl.idx]["files"][fl.idx].get("kgs", [])
+            if len(kgs) >= 2:
+                h = fl.sectors_abs[0]
+                sc["faults"].append(["rot", "keygroup", h + 150 + 1, list(struct.pack("<H", rng.choice([150, 150, 151, 1])))])
+                if rng.random() < 0.5:
+                    sc["faults"].append(["rot", "keygroup", h + 42, [rng.choice([255, 200, 99])]])
     for _ in range(weighted(rng, [(1, 4), (2, 3), (3, 2), (4, 1)])):
         k = weighted(rng, [("target", 7), ("uniform", 2), ("cut", 2.5), ("eio", 1)])
         if k == "target" and tg:
@@ -276,6 +297,11 @@ def gen(rng: random.Random, tier: str, index: int) -> dict:
                 for tt in tg:
                     if tt[0] == "fat_ring":
                         sc["faults"].append(["rot", "fat_word", tt[1], list(struct.pack("<H", tt[3]))])
+            elif len(t) > 3 and kind == "keygroup":
+                sc["faults"].append(["rot", kind, off, list(int(t[3]).to_bytes(width, "little"))])
+                if width == 2 and rng.random() < 0.5:
+                    # many keygroups announced, so that a cyclic link is actually followed
+                    hdr = off - ((off - lay.partitions[0].base) % A.SECTOR) if False else None
             elif len(t) > 3:
                 sc["faults"].append(["rot", kind, off, list(struct.pack("<H", t[3]))])
                 # complete a two-element cycle now and then
